@@ -109,8 +109,10 @@ def sym_eval(arr, assignment):
     return out
 
 
-def poly_equal(got, exp, what):
-    """entrywise polynomial identity expand(got - exp) == 0 (floats that are exact rationals are tolerated: 1.0*x == x)"""
+def poly_equal(got, exp, what, coeff_tol=0.0):
+    """entrywise polynomial identity expand(got - exp) == 0 (floats that are exact rationals are tolerated: 1.0*x == x).
+    coeff_tol > 0 (only for maps with floating-point *coefficients* and symbolic operands): every coefficient of the expanded
+    difference must be below coeff_tol in absolute value."""
     import sympy as sp
 
     got = np.asarray(got, dtype=object)
@@ -119,6 +121,9 @@ def poly_equal(got, exp, what):
         raise Violation("%s: shape %s, contract requires %s" % (what, got.shape, exp.shape))
     for idx in np.ndindex(*got.shape):
         d = sp.expand(sp.sympify(got[idx]) - sp.sympify(exp[idx]))
+        if d != 0 and coeff_tol > 0:
+            if all(abs(complex(sp.N(c))) < coeff_tol for c in d.as_coefficients_dict().values()):
+                continue
         if d != 0:
             d = sp.expand(sp.nsimplify(d, rational=True))
         if d != 0:
@@ -142,7 +147,7 @@ def close(got, exp, what, tol=TOL_IDX):
         raise Violation("%s: max abs deviation %.3g (tolerance %.1g x scale %.3g)" % (what, dev, tol, scale))
 
 
-def run_modes(p, body, tol=TOL_IDX):
+def run_modes(p, body, tol=TOL_IDX, coeff_tol=0.0):
     """body(ent) -> list of (what, got, required).  entries == 'sym': run the real code on sympy symbols, require polynomial
     identities, then check at three numeric assignments that (a) the contract holds numerically and (b) the real function on
     numbers returns what the symbolic result evaluates to (entry-obliviousness; a mismatch there is 'undecided', not a violation)."""
@@ -161,7 +166,7 @@ def run_modes(p, body, tol=TOL_IDX):
         # ordering comparison on a symbol, np.allclose/isfinite on object arrays: the function is not entry-oblivious
         raise Undecided("function does not run on symbolic entries (%s: %s)" % (type(e).__name__, str(e)[:120]))
     for what, got, exp in sym_out:
-        poly_equal(got, exp, what + " [symbolic entries]")
+        poly_equal(got, exp, what + " [symbolic entries]", coeff_tol)
     n_ent = sum(a.size for a in es.reg.values())
     for kind in ("generic", "zeros", "ints"):
         en = Ent(kind, seed)
